@@ -44,7 +44,7 @@ def run(ctx):
     KALL = '{"polar", "polarA", "polarZ", "inter", "interZ", "resect", "resectA", "trilat", "ddb", "fs2", "trav"}'
     if q:
         ra, ca = acordnets.generate(ctx, "c06d", {"NP": 5, "MaxExtra": 0, "Kinds": K1, "Keep": 211, "Seed": ctx.seed})
-        ra2, ca2 = acordnets.generate(ctx, "c06f", {"NP": 5, "MaxExtra": 0, "Kinds": K2, "Keep": 307, "Seed": ctx.seed})
+        ra2, ca2 = acordnets.generate(ctx, "c06f", {"NP": 5, "MaxExtra": 0, "Kinds": K2, "Keep": 499, "Seed": ctx.seed})
         # azimuths: two small families instead of K3 (670 000 states)
         ra3, ca3 = acordnets.generate(ctx, "c06g", {"NP": 5, "MaxExtra": 0, "Kinds": '{"polarZ", "inter"}', "Keep": 199, "Seed": ctx.seed})
         ra4, ca4 = acordnets.generate(ctx, "c06j", {"NP": 5, "MaxExtra": 0, "Kinds": '{"polarZ", "interZ"}', "Keep": 307, "Seed": ctx.seed})
@@ -77,7 +77,7 @@ def run(ctx):
     st3d = acordnets.run(ctx, c3, algs=(None,), spatial=True)
     ctx.note("Acord3D: %d construction histories (%d states), %d runs, %d points positioned in x, y, z" % (len(c3), r3.distinct, st3d["runs"], st3d["points_checked"]))
     # a sample of all three families through the sanitizer build
-    step = 7 if q else 3
+    step = 15 if q else 3
     sts = [acordnets.run(ctx, ca[::step * 3], kind="asan"), acordnets.run(ctx, ch[::step * 5], heights=True, kind="asan"),
            acordnets.run(ctx, c3[::step * 2], spatial=True, kind="asan")]
     san_runs = sum(x["runs"] for x in sts)
